@@ -156,6 +156,8 @@ def run(R):
                     ev = a_["ev"]
                     if not is_result(ev.ret):
                         continue
+                    if a_["known"] is None and any(o.state.facts.simplify(c_).const_value() == 0 for c_ in a_["conds"]):
+                        continue        # the event sits in an alternative this outcome did not take
                     nev += 1
                     a = ("var", ev.ret.name, 1, 2)
                     if a_["known"] is not None:
